@@ -197,7 +197,11 @@ Fixpoint ans (f : nat) (bps : list bp) (t : tracer) (w : W) (s : wstatus) {struc
           let '(ok, w1) := w_req w (PSetPc p cur) in
           if negb ok then Err 2 else
           match find_bp bps cur with
-          | None => Panic 5
+          | None =>
+              (* tracer.rs after "fix: a breakpoint removed while its trap was pending": the trap of a
+                 breakpoint that is not in the table anymore is consumed, the pc is already back on
+                 the original instruction, the tracee is marked stopped and goes on with the others *)
+              t2 <- ensure_stop t p StInterrupt ;; Ok (t2, w1, None)
           | Some b =>
               let has_tmp := existsb (fun b => bkind_eqb (b_kind b) BTemp || bkind_eqb (b_kind b) BTempAsync) bps in
               let temporary_hit := bkind_eqb (b_kind b) BTemp && (p =? b_pid b) in
